@@ -34,6 +34,7 @@ THEOREMS = [
     "MCHap.C05.dmCounts_eq_perms_mul_ordered",
     "MCHap.C05.assemblePrior_perm",
     "MCHap.C05.assemblePrior_zero",
+    "MCHap.C05.assemblePrior_eq_callPrior_flat",
     "MCHap.C05.gamma_ratio_eq_rising",
     "MCHap.C05.gamma_factorial",
 ]
